@@ -43,6 +43,12 @@ def make_cases(rng, tier):
         else:
             w = sink.sink(rng)["wgsl"]
             o, nt = dict(rng.choice(structcases.ALL_OPTS)), True
+        if i % 10 == 9:
+            # a large module: more than 64 types, many host-shareable structs (size-dependent code paths)
+            nst = rng.randint(70, 90)
+            w = "\n".join("struct B%d { a: vec4<f32>, b: array<f32, %d> }\n@group(0) @binding(%d) var<storage, read> b%d: B%d;"
+                          % (k, 1 + k % 5, k, k, k) for k in range(nst)) + "\n@compute @workgroup_size(1) fn main() { _ = b0.a; }\n"
+            o, nt = dict(rng.choice(structcases.ALL_OPTS)), True
         o["rustfmt"] = (i % 7 == 3)
         out.append({"id": i, "wgsl": w, "include": None if i % 5 else "a/b.wgsl", "opts": o, "want_text": True, "nt": nt})
     return out
